@@ -36,6 +36,20 @@ def input_rels_default(prog):
     return [r for r in prog.relmap if r not in heads and not prog.relmap[r].ds]
 
 
+def input_rels_all(prog, D, cap=72):
+    """every relation gets symbolic input facts; if that exceeds `cap` variables, derived relations of the
+    highest arity are dropped first (relations no rule derives always stay)"""
+    edb = input_rels_default(prog)
+    rels = [r for r in prog.relmap if not prog.relmap[r].ds]
+
+    def nvars(rs):
+        return sum(D ** prog.relmap[r].arity for r in rs)
+    idb = sorted([r for r in rels if r not in edb], key=lambda r: (prog.relmap[r].arity, r))
+    while idb and nvars(edb + idb) > cap:
+        idb.pop()
+    return [r for r in rels if r in edb or r in idb]
+
+
 class Scenario:
     """kinds:
       run        : default; A; run; observe                      expect M(A)
@@ -44,7 +58,7 @@ class Scenario:
       timeout    : default; A; run_timeout; observe; run_timeout; observe; run; observe
     """
 
-    def __init__(self, kind, D=3, dup=False, all_inputs=False, K=12, maxm=None):
+    def __init__(self, kind, D=3, dup=False, all_inputs=True, K=12, maxm=None):
         if maxm is None:
             maxm = {"run": 2, "rerun": 2, "push": 3, "timeout": 3}[kind]
         self.kind, self.D, self.dup, self.all_inputs, self.K, self.maxm = kind, D, dup, all_inputs, K, maxm
@@ -57,13 +71,16 @@ class Scenario:
     def execute(self, mod_ast, prog):
         M.MAXM = self.maxm
         kind = self.kind
-        rels = [r for r in prog.relmap if not prog.relmap[r].ds] if self.all_inputs else input_rels_default(prog)
+        if getattr(prog, "D", None):
+            self.D = prog.D
+        rels = input_rels_all(prog, self.D) if self.all_inputs else input_rels_default(prog)
         A = Dr.Inputs(prog, self.D, rels, dup=self.dup, tag="A")
-        solver = z3.Solver()
+        solver = new_solver()
         solver.add(*A.constraints)
         B = None
         ex = Dr.Exec(mod_ast, prog, K=self.K, clock=("free" if kind == "timeout" else "none"))
         ex.ctx.solver = solver
+        ex.ctx.namer = Namer(solver)
         ex.default()
         A.fill(ex.obj, ex.ctx)
         obs = []
@@ -108,7 +125,7 @@ class Scenario:
         return ref
 
     def _fresh_solver(self):
-        s = z3.Solver()
+        s = new_solver()
         s.add(*self.A.constraints)
         if self.B is not None:
             s.add(*self.B.constraints)
@@ -194,6 +211,9 @@ class Scenario:
                 equiv(label + "_returned_true", ob, when=rt)
                 equiv(label + "_returned_false", ob, sound_only=True, when=rf)
             equiv("final", self.obs[2][1])
+        kinds = getattr(self, "kinds", None)
+        if kinds is not None:
+            qs = [q for q in qs if q.kind in kinds]
         if ctx.overflow:
             qs.append(Query("multiplicity_within_bound", OrL(ctx.overflow), "overflow"))
         return qs
